@@ -255,7 +255,7 @@ def run(ctx):
                     continue
                 for v in VERSIONS:
                     # does the version / strictness matter for this document?
-                    entries = ENTRIES if not ctx.quick else [ENTRIES[(rot + k + j * 5) % len(ENTRIES)] for j in range(4)]
+                    entries = ENTRIES if not ctx.quick else [ENTRIES[(rot + k + j * 3) % len(ENTRIES)] for j in range(9)]
                     for entry in dict.fromkeys(entries):
                         k += 1
                         allow = (rot + k) % 3 == 0
